@@ -81,6 +81,10 @@ func TestBoundedB1(t *testing.T) {
 			m2, err := transformer.TransformDSLToProto(dsl)
 			if err != nil {
 				reps["C02"].violation("output-not-parseable", id, "produced DSL is rejected by the parser: %v", firstLine(err.Error()))
+				if modelDigest(m, true) == modelDigest(m, false) {
+					// m is its own normal form, i.e. a model the parser returns for some DSL text: its rendering must parse (C01)
+					reps["C01"].violation("rendering-not-parseable", id, "the rendering of a parser-shaped model is rejected by the parser: %v", firstLine(err.Error()))
+				}
 				continue
 			}
 			if got, exp := modelDigest(m2, false), modelDigest(m, true); got != exp {
